@@ -1276,6 +1276,12 @@ where
 
     #[inline]
     unsafe fn set_atomic_unchecked(&self, index: usize, value: W, order: Ordering) {
+        // Loads and failed compare-exchanges cannot use release orderings
+        let load_order = match order {
+            Ordering::Release => Ordering::Relaxed,
+            Ordering::AcqRel => Ordering::Acquire,
+            order => order,
+        };
         let pos = index * self.bit_width;
         let word_index = pos / W::BITS;
         let bit_index = pos % W::BITS;
@@ -1283,7 +1289,7 @@ where
 
         if bit_index + self.bit_width <= W::BITS {
             // this is consistent
-            let mut current = bits.get_unchecked(word_index).load(order);
+            let mut current = bits.get_unchecked(word_index).load(load_order);
             loop {
                 let mut new = current;
                 new &= !(self.mask << bit_index);
@@ -1291,14 +1297,14 @@ where
 
                 match bits
                     .get_unchecked(word_index)
-                    .compare_exchange(current, new, order, order)
+                    .compare_exchange(current, new, order, load_order)
                 {
                     Ok(_) => break,
                     Err(e) => current = e,
                 }
             }
         } else {
-            let mut word = bits.get_unchecked(word_index).load(order);
+            let mut word = bits.get_unchecked(word_index).load(load_order);
             // try to wait for the other thread to finish
             fence(Ordering::Acquire);
             loop {
@@ -1308,7 +1314,7 @@ where
 
                 match bits
                     .get_unchecked(word_index)
-                    .compare_exchange(word, new, order, order)
+                    .compare_exchange(word, new, order, load_order)
                 {
                     Ok(_) => break,
                     Err(e) => word = e,
@@ -1323,7 +1329,7 @@ where
             // should try to syncronize the threads as much as possible
             compiler_fence(Ordering::SeqCst);
 
-            let mut word = bits.get_unchecked(word_index + 1).load(order);
+            let mut word = bits.get_unchecked(word_index + 1).load(load_order);
             fence(Ordering::Acquire);
             loop {
                 let mut new = word;
@@ -1332,7 +1338,7 @@ where
 
                 match bits
                     .get_unchecked(word_index + 1)
-                    .compare_exchange(word, new, order, order)
+                    .compare_exchange(word, new, order, load_order)
                 {
                     Ok(_) => break,
                     Err(e) => word = e,
